@@ -39,13 +39,14 @@ RULE = ("Six case modes. basis: fshift applied to the complete impulse basis eye
         "/ Fortran / read-only arguments where the unchanged tree accepts them, mixed float widths, repeated calls "
         "with the same objects and after a call on other data; generate_waveform with fs / velocity / decay omitted "
         "(must equal the call spelling out the signature defaults) and with the default spike / default coordinates. "
-        "Real-data scale (about 2.5 % of the quick, 2 % of the thorough Hypothesis cases, labels scale_*): fshift on 1-2 traces of "
+        "Real-data scale (2-3 % of the Hypothesis cases, labels scale_*; Hypothesis draws one seed per case, the kind and "
+        "all parameters are derived from it with default_rng, such a case is not shrunk): fshift on 1-2 traces of "
         "2^16..2^21 samples (2^k, 10^k, 3*2^k, their neighbours, primes, random lengths) carrying white noise (integer "
         "shifts: == np.roll), impulses on / next to multiples of 2^16..2^21, 10^5, 10^6 (fractional: one Dirichlet kernel "
         "placed at every impulse) or sinusoid sums, with scalar / composed / per-trace shifts that are or cross such "
         "multiples; fshift on 2^15..2^17 waveforms of 32..128 samples with one seed-generated shift per waveform "
-        "(noise + integer shifts: gather oracle; sinusoid sums: closed form); parabolic_max on 2^16..2^21 rows; "
-        "shift_waveform on 2^13 / 10^4 (thorough: up to 2^16) spikes; wave_shift_corrmax on a long trace with spikes next to "
+        "(noise + integer shifts: gather oracle; sinusoid sums: closed form); parabolic_max on 2^16..1.4*10^6 rows; "
+        "shift_waveform on 2^12..10^4 (thorough: up to 2^16) spikes; wave_shift_corrmax on a long trace with spikes next to "
         "the block boundaries. Same tolerances as the small cases.")
 EXHAUSTIVE_NOTE = ("all lengths n <= 256 (quick) / n <= 2048 (thorough) x axis {0,1} x dtype {f4,f8} on the full impulse "
                    "basis with a fixed list of shifts (all integer shifts in (-n,n) for n <= 32); the shift values "
@@ -167,8 +168,8 @@ def _st_value(n):
 
 
 @st.composite
-def _st_scalar(draw, n, values=None):
-    v = draw(_st_value(n) if values is None else values)
+def _st_scalar(draw, n):
+    v = draw(_st_value(n))
     if isinstance(v, int):
         t = draw(st.sampled_from(["int", "float", "npf8", "npf4", "npi8", "npi4"]))
         v = int(v) if t in ("int", "npi8", "npi4") else float(v)
@@ -329,16 +330,26 @@ def _st_model(draw):
 # ---- real-data scale (guide item 7): a rare class whose processing axis has the size of real data --------------
 # long: one or two traces of 2^16 .. 2^21 samples (round lengths, their neighbours, lengths with large prime factors)
 # through fshift; batch: 2^15 .. 2^17 waveforms of 32..128 samples through fshift with one shift per waveform;
-# parabola: 2^16 .. 2^21 rows through parabolic_max; cluster: 2^13, 10^4 (thorough: .. 2^16) spikes through
+# parabola: 2^16 .. 1.4*10^6 rows through parabolic_max; cluster: 2^12 .. 10^4 (thorough: .. 2^16) spikes through
 # shift_waveform; corrmax: a long trace with spikes next to the seams through wave_shift_corrmax. Positions, lengths
 # and shifts sit on and next to multiples of these block sizes (a later "process in blocks of 2^20 / 10^6" change
 # introduces a seam that inputs of a few hundred samples never cross).
+#
+# Hypothesis draws ONE 32-bit seed per scale case; the kind and every parameter are derived from it with
+# np.random.default_rng (function _scale_params, a pure function of the case). Drawing them with Hypothesis was tried
+# first: in a class this rare the counts per kind were erratic (0-33 cases of a kind per quick run, 3 % instead of 40 %
+# of the long traces beyond 2^20), because Hypothesis fills a run with mutated siblings of a few examples (spans copied
+# between positions), which keeps the leading choices and favours small integers = the first branches. The price is
+# that a failing scale case is not shrunk; its message names the length, shifts and positions.
 _SEAMS = [2 ** 16, 2 ** 17, 2 ** 18, 2 ** 19, 2 ** 20, 2 ** 21, 10 ** 5, 10 ** 6, 2 * 10 ** 6]
 _LONG_ROUND = [2 ** 16, 10 ** 5, 2 ** 17, 2 ** 18, 3 * 2 ** 17, 2 ** 19, 10 ** 6, 2 ** 20, 3 * 2 ** 19, 2 * 10 ** 6,
                2 ** 21]
 # primes and twice a prime: Bluestein lengths (a prime near 2^21 costs 2 s per call and is left out)
 _LONG_PRIMEY = [65521, 65537, 131071, 2 * 65521, 262139, 524287, 1000003, 1048573, 2 * 524287, 1048583]
 _NEAR = [-3, -2, -1, 1, 2, 3, 5, 16, 1000]
+_BATCH_ELEMS = 2 ** 22 + 2 ** 10  # waveforms x samples of a batch case: 34 MB per float64 array, ~10 alive at the peak
+# weights of the kinds inside the scale class
+_SCALE_KINDS = [("long", 10), ("batch", 4), ("parabola", 3), ("corrmax", 2), ("cluster", 1)]
 
 
 def _mix(u):
@@ -348,27 +359,31 @@ def _mix(u):
     return u ^ (u >> 13)
 
 
-def _hweighted(*pairs):
-    """Like vp.gens.weighted, but the branch is chosen by a hash of a drawn 32-bit integer. Inside a rare class a small
-    bounded integer does not come out uniform: Hypothesis builds many examples by copying draws between positions of
-    earlier examples, which favours the values that are frequent elsewhere in the example (0, 1, 2 = the first
-    branches; measured: 79 % of the scale cases "long", 3-12 % of the long traces beyond 2^20 instead of 40 %)."""
-    order = [i for i, (w, _) in enumerate(pairs) for _ in range(w)]
-    strs = [s_ for _, s_ in pairs]
-    return st.integers(0, 2 ** 32 - 1).flatmap(lambda u: strs[order[_mix(u) % len(order)]])
+class _R:
+    """Choices derived from the seed of a scale case."""
 
+    def __init__(self, seed):
+        self.r = np.random.default_rng([int(seed), 0xC07])
 
-def _near(b):
-    return st.sampled_from([b + d for d in _NEAR])
+    def int(self, lo, hi):
+        return int(self.r.integers(lo, hi + 1))
 
+    def flt(self, lo, hi):
+        return float(self.r.uniform(lo, hi))
 
-def _st_long_n(nmax=2 ** 21 + 2 ** 16):
-    parts = [(4, st.sampled_from([v for v in _LONG_ROUND if v <= nmax])), (1, _near(2 ** 16)), (4, _near(2 ** 20)),
-             (2, _near(10 ** 6)), (2, st.integers(2 ** 16, 2 ** 18)), (3, st.integers(2 ** 20 - 5000, 2 ** 20 + 5000)),
-             (1, st.integers(2 ** 16, nmax)), (1, st.sampled_from(_LONG_PRIMEY))]
-    if nmax >= 2 ** 21 + 1000:
-        parts += [(2, _near(2 ** 21)), (1, _near(2 * 10 ** 6))]
-    return _hweighted(*parts)
+    def pick(self, seq):
+        return seq[int(self.r.integers(0, len(seq)))]
+
+    def wpick(self, *pairs):
+        """pairs (weight, value or zero-argument function)"""
+        k = int(self.r.integers(0, sum(w for w, _ in pairs)))
+        for w, v in pairs:
+            if k < w:
+                return v() if callable(v) else v
+            k -= w
+
+    def seed(self):
+        return int(self.r.integers(0, 2 ** 32))
 
 
 def _seam_positions(n):
@@ -380,118 +395,163 @@ def _seam_positions(n):
     return sorted(v for v in out if 0 <= v < n)
 
 
-def _st_value_long(n, intonly):
-    """A shift in (-n, n) for a long trace: the small-n palette plus shifts that are / carry a sample across a multiple
-    of a block size, and the sub-sample / few-sample shifts of real use."""
+def _p_long_n(R, nmax=2 ** 21 + 2 ** 16):
+    near = lambda b: (lambda: b + R.pick(_NEAR[1:] if b == 2 ** 20 else _NEAR))  # noqa: E731  (2^20 - 3: _LONG_PRIMEY)
+    parts = [(4, lambda: R.pick([v for v in _LONG_ROUND if v <= nmax])), (1, near(2 ** 16)), (4, near(2 ** 20)),
+             (2, near(10 ** 6)), (2, lambda: R.int(2 ** 16, 2 ** 18)), (3, lambda: R.int(2 ** 20 - 5000, 2 ** 20 + 5000)),
+             (1, lambda: R.int(2 ** 16, nmax)), (1, lambda: R.pick(_LONG_PRIMEY))]
+    if nmax >= 2 ** 21 + 1000:
+        parts += [(2, near(2 ** 21)), (1, near(2 * 10 ** 6))]
+    return R.wpick(*parts)
+
+
+def _p_value_long(R, n, intonly):
+    """A shift in (-n, n) for a long trace: any integer / double, the ends of the range, shifts that are / carry a sample
+    across a multiple of a block size, and the sub-sample / few-sample shifts of real use."""
     m = n - 1
     seams = sorted({v + d for b in _SEAMS for v in (b, -b, n - b, b - n) for d in (-1, 0, 1) if abs(v + d) <= m - 1})
-    ints = st.one_of(st.integers(-m, m), st.sampled_from(sorted({0, 1, -1, m, -m, n // 2, -(n // 2)})),
-                     st.sampled_from(seams), st.integers(-64, 64))
+    ints = lambda: R.wpick((1, lambda: R.int(-m, m)), (1, lambda: R.pick(sorted({0, 1, -1, m, -m, n // 2, -(n // 2)}))),  # noqa: E731
+                           (2, lambda: R.pick(seams)), (1, lambda: R.int(-64, 64)))
     if intonly:
-        return ints
-    fr = st.one_of(st.sampled_from(seams), st.integers(-m + 1, m - 1), st.integers(-8, 8)).flatmap(
-        lambda k: st.sampled_from([k + 0.5, k - 0.25, k + 1 / 64.0, k + 501 / 1009.0, k - 1e-3]))
-    return st.one_of(ints, fr, fr, st.floats(-float(m), float(m), allow_nan=False, allow_infinity=False),
-                     st.floats(-1.0, 1.0, allow_nan=False))
+        return ints()
+    frac = lambda: (R.wpick((2, lambda: R.pick(seams)), (1, lambda: R.int(-m + 1, m - 1)), (1, lambda: R.int(-8, 8)))  # noqa: E731
+                    + R.pick([0.5, -0.25, 1 / 64.0, 501 / 1009.0, -1e-3]))
+    return R.wpick((1, ints), (3, frac), (1, lambda: R.flt(-m, m)), (1, lambda: R.flt(-1.0, 1.0)))
 
 
-@st.composite
-def _st_scale_long(draw):
-    n = draw(_st_long_n())
-    intonly = draw(st.booleans())
-    values = _st_value_long(n, intonly)
-    kind = draw(st.sampled_from(["shift", "shift", "compose", "pertrace"]))
-    if kind == "shift":
-        op = {"op": "shift", "s": draw(_st_scalar(n, values))}
-    elif kind == "compose":
-        op = {"op": "compose", "a": draw(_st_scalar(n, values)), "b": draw(_st_scalar(n, values))}
+def _p_scalar(R, v):
+    """like _st_scalar: the Python / NumPy scalar type a value is handed over as"""
+    if isinstance(v, int):
+        t = R.pick(["int", "float", "npf8", "npf4", "npi8", "npi4"])
+        v = int(v) if t in ("int", "npi8", "npi4") else float(v)
     else:
-        vals = [draw(values), draw(values)]
-        sd = draw(st.sampled_from(["f8", "f8", "f4", "i8", "i4"] if intonly else ["f8", "f8", "f4"]))
-        op = {"op": "pertrace", "values": vals, "sdtype": sd, "sshape": draw(st.sampled_from(["flat", "nd", "keep"])),
-              "smem": draw(st.sampled_from(["plain", "plain", "ro", "strided", "neg"]))}
-    ntr = 2 if kind == "pertrace" else draw(st.sampled_from([1, 1, 2]))
-    pos = st.one_of(st.sampled_from(_seam_positions(n)), st.sampled_from(_seam_positions(n)), st.integers(0, n - 1))
-    return {"mode": "scale", "kind": "long", "n": n, "ntr": ntr,
-            "orient": draw(st.sampled_from(["1d", "rows", "cols"] if ntr == 1 else ["rows", "rows", "cols"])),
-            "negaxis": draw(st.booleans()), "dtype": draw(st.sampled_from(["f8", "f8", "f4"])),
-            "layout": draw(st.sampled_from(["C", "C", "F"])), "freq": draw(st.sampled_from([False, False, False, True])),
-            "sig": draw(st.sampled_from(["noise", "impulses", "sines"] if intonly else ["impulses", "sines", "sines"])),
-            "pos": [draw(pos) for _ in range(draw(st.integers(1, 6)))], "seed": draw(st.integers(0, 2 ** 32 - 1)),
-            "ncomp": draw(st.integers(1, 3)), "band": draw(st.sampled_from(["full", "full", "top", "low"])),
-            "op": op, "dim": draw(_st_dim(30))}
+        t = R.pick(["float", "float", "npf8", "npf4"])
+        v = float(np.float32(v)) if t == "npf4" else float(v)
+    return {"v": v, "st": t}
 
 
-_BATCH_ELEMS = 2 ** 22 + 2 ** 10  # waveforms x samples of a batch case: 34 MB per float64 array, ~10 alive at the peak
+def _p_dim(R):
+    return {"call": R.pick(_CALLS), "ro": R.pick([False, True]), "xspec": R.pick(["C", "C", "F", "view"]),
+            "rep": R.wpick((19, 0), (1, 1))}
 
 
-@st.composite
-def _st_scale_batch(draw):
-    ns = draw(st.one_of(st.integers(32, 128), st.sampled_from([32, 33, 40, 61, 64, 82, 121, 127, 128])))
+def _p_comps(R):
+    comps = []
+    for i in range(R.int(1, 3)):
+        sig = R.pick([R.flt(2.0, 8.0), R.flt(2.0, 2.5)])
+        comps.append([R.int(0, 3), sig, 0.0 if i == 0 else R.flt(-2.0, 2.0) * sig, 1.0 if i == 0 else R.flt(-0.35, 0.35)])
+    return comps
+
+
+def _p_delay(R):
+    return float(R.wpick((1, lambda: R.flt(-60.0, 60.0)), (1, lambda: R.flt(-1.5, 1.5)),
+                         (1, lambda: R.int(-30, 30) + R.int(0, 99) / 100.0), (1, lambda: R.int(-20, 20))))
+
+
+def _p_long(R, heavy):
+    n = _p_long_n(R)
+    intonly = R.pick([False, True])
+    kind = R.pick(["shift", "shift", "compose", "pertrace"])
+    if kind == "shift":
+        op = {"op": "shift", "s": _p_scalar(R, _p_value_long(R, n, intonly))}
+    elif kind == "compose":
+        op = {"op": "compose", "a": _p_scalar(R, _p_value_long(R, n, intonly)),
+              "b": _p_scalar(R, _p_value_long(R, n, intonly))}
+    else:
+        op = {"op": "pertrace", "values": [_p_value_long(R, n, intonly), _p_value_long(R, n, intonly)],
+              "sdtype": R.pick(["f8", "f8", "f4", "i8", "i4"] if intonly else ["f8", "f8", "f4"]),
+              "sshape": R.pick(["flat", "nd", "keep"]), "smem": R.pick(["plain", "plain", "ro", "strided", "neg"])}
+    ntr = 2 if kind == "pertrace" else R.pick([1, 1, 1, 2])
+    seams = _seam_positions(n)
+    return {"n": n, "ntr": ntr, "orient": R.pick(["1d", "rows", "cols"] if ntr == 1 else ["rows", "rows", "cols"]),
+            "negaxis": R.pick([False, True]), "dtype": R.pick(["f8", "f8", "f4"]), "layout": R.pick(["C", "C", "F"]),
+            "freq": R.pick([False, False, False, True]),
+            "sig": R.pick(["noise", "impulses", "sines"] if intonly else ["impulses", "sines", "sines"]),
+            "pos": [R.wpick((2, lambda: R.pick(seams)), (1, lambda: R.int(0, n - 1))) for _ in range(R.int(1, 6))],
+            "seed": R.seed(), "ncomp": R.int(1, 3), "band": R.pick(["full", "full", "top", "low"]), "op": op,
+            "dim": _p_dim(R)}
+
+
+def _p_batch(R, heavy):
+    # mostly up to 64 samples: only these reach 2^16 waveforms within _BATCH_ELEMS
+    ns = R.wpick((3, lambda: R.int(32, 64)), (1, lambda: R.int(65, 128)),
+                 (2, lambda: R.pick([32, 33, 40, 61, 64, 82, 121, 127, 128])))
     cap = _BATCH_ELEMS // ns
-    cands = [b + d for b in (2 ** 15, 5 * 10 ** 4, 2 ** 16, 10 ** 5, 2 ** 17, 2 * 10 ** 5) for d in (-1, 0, 1, 2)
-             if b + d <= cap]
-    nw = draw(st.one_of(st.sampled_from(cands), st.sampled_from(cands), st.integers(2 ** 15, cap)))
-    sig = draw(st.sampled_from(["noise_int", "sines", "sines"]))
-    intonly = sig == "noise_int" or draw(st.sampled_from([False, False, True]))
-    if draw(st.sampled_from([True, True, True, False])):
-        sh = {"kind": "pertrace", "sseed": draw(st.integers(0, 2 ** 32 - 1)),
-              "sdtype": draw(st.sampled_from(["f8", "f8", "f4", "i8", "i4"] if intonly else ["f8", "f8", "f4"])),
-              "sshape": draw(st.sampled_from(["flat", "nd", "keep"])),
-              "smem": draw(st.sampled_from(["plain", "plain", "ro", "strided", "neg"]))}
+    cands = [b + d for b in (2 ** 15, 5 * 10 ** 4, 2 ** 16, 10 ** 5, 2 ** 17) for d in (-1, 0, 1, 2) if b + d <= cap]
+    over = [v for v in cands if v > 2 ** 16] or cands[-4:]
+    nw = R.wpick((1, lambda: R.pick(cands)), (3, lambda: R.pick(over)), (1, lambda: R.int(2 ** 15, cap)))
+    sig = R.pick(["noise_int", "sines", "sines"])
+    intonly = sig == "noise_int" or R.pick([False, False, True])
+    if R.int(0, 3):
+        sh = {"kind": "pertrace", "sseed": R.seed(),
+              "sdtype": R.pick(["f8", "f8", "f4", "i8", "i4"] if intonly else ["f8", "f8", "f4"]),
+              "sshape": R.pick(["flat", "nd", "keep"]), "smem": R.pick(["plain", "plain", "ro", "strided", "neg"])}
     else:
         m = ns - 1
-        sh = {"kind": "scalar", "s": draw(_st_scalar(ns, st.integers(-m, m)) if intonly else _st_scalar(ns))}
-    return {"mode": "scale", "kind": "batch", "ns": ns, "nw": nw, "sig": sig, "intonly": intonly, "shift": sh,
-            "orient": draw(st.sampled_from(["rows", "rows", "cols"])), "negaxis": draw(st.booleans()),
-            "dtype": draw(st.sampled_from(["f8", "f8", "f4"])), "layout": draw(st.sampled_from(["C", "C", "F"])),
-            "seed": draw(st.integers(0, 2 ** 32 - 1)), "ncomp": draw(st.integers(1, 3)),
-            "band": draw(st.sampled_from(["full", "full", "top", "low"])), "dim": draw(_st_dim(30))}
+        v = R.int(-m, m) if intonly or R.int(0, 3) == 0 else R.wpick(
+            (1, lambda: R.flt(-m, m)), (1, lambda: R.int(-m, m - 1) + R.int(1, 63) / 64.0), (1, lambda: R.int(-m, m - 1) + 0.5))
+        sh = {"kind": "scalar", "s": _p_scalar(R, v)}
+    return {"ns": ns, "nw": nw, "sig": sig, "intonly": intonly, "shift": sh, "orient": R.pick(["rows", "rows", "cols"]),
+            "negaxis": R.pick([False, True]), "dtype": R.pick(["f8", "f8", "f4"]), "layout": R.pick(["C", "C", "F"]),
+            "seed": R.seed(), "ncomp": R.int(1, 3), "band": R.pick(["full", "full", "top", "low"]), "dim": _p_dim(R)}
 
 
-@st.composite
-def _st_scale_parabola(draw):
-    # mostly 3..8 samples per row: only these reach 10^6 / 2^20 rows within 2^23 samples
-    ns = draw(_hweighted((3, st.integers(3, 8)), (1, st.integers(9, 64)), (1, st.sampled_from([16, 32, 64]))))
-    cap = 2 ** 23 // ns
+def _p_parabola(R, heavy):
+    # mostly 3..4 samples per row: only these reach 10^6 / 2^20 rows within 2^22 samples
+    ns = R.wpick((3, lambda: R.int(3, 4)), (1, lambda: R.int(5, 8)), (1, lambda: R.int(9, 64)), (1, lambda: R.pick([16, 32, 64])))
+    cap = (2 ** 22 + 2 ** 10) // ns
     cands = [b + d for b in (2 ** 16, 10 ** 5, 2 ** 17, 2 ** 18, 2 ** 19, 10 ** 6, 2 ** 20, 2 * 10 ** 6, 2 ** 21)
              for d in (-1, 0, 1) if b + d <= cap]
-    nrows = draw(_hweighted((2, st.sampled_from(cands[-6:])), (1, st.sampled_from(cands)), (1, st.integers(2 ** 16, cap))))
-    return {"mode": "scale", "kind": "parabola", "ns": ns, "nrows": nrows, "seed": draw(st.integers(0, 2 ** 32 - 1)),
-            "dtype": draw(st.sampled_from(["f8", "f8", "f4"])), "layout": draw(st.sampled_from(["C", "C", "F", "ro"]))}
+    nrows = R.wpick((2, lambda: R.pick(cands[-6:])), (1, lambda: R.pick(cands)), (1, lambda: R.int(2 ** 16, cap)))
+    return {"ns": ns, "nrows": nrows, "seed": R.seed(), "dtype": R.pick(["f8", "f8", "f4"]),
+            "layout": R.pick(["C", "C", "F", "ro"])}
 
 
-@st.composite
-def _st_scale_cluster(draw, tier):
-    sizes = [(2, [8191, 8192, 8193]), (2, [9999, 10000, 10001])]  # 150 us per spike: 1.2 s, 1.5 s per case
-    if tier == "thorough":
-        sizes += [(2, [16383, 16384, 16385]), (1, [32767, 32768, 32769]), (1, [65535, 65536, 65537])]  # 2.5 - 10 s
-    return {"mode": "scale", "kind": "cluster", "comps": draw(_st_comps()),
-            "nspikes": draw(_hweighted(*[(w, st.sampled_from(v)) for w, v in sizes])),
-            "ntraces": draw(st.integers(1, 2)), "smax": draw(st.sampled_from([1.5, 4.0, 20.0])),
-            "pad": draw(st.floats(0.0, 8.0)), "extra": draw(st.integers(0, 1)), "coff": draw(st.floats(-1.0, 1.0)),
-            "seed": draw(st.integers(0, 2 ** 32 - 1)), "sign": draw(st.sampled_from([1.0, -1.0])),
-            "dtype": draw(st.sampled_from(["f8", "f8", "f4"])), "layout": draw(st.sampled_from(["C", "C", "F"]))}
+def _p_cluster(R, heavy):
+    sizes = [(3, [4095, 4096, 4097]), (2, [8191, 8192, 8193]), (1, [9999, 10000, 10001])]  # 150 us per spike: 0.6 - 1.5 s
+    if heavy:
+        sizes += [(3, [9999, 10000, 10001]), (3, [16383, 16384, 16385]), (1, [32767, 32768, 32769]),
+                  (1, [65535, 65536, 65537])]  # 1.5 - 10 s per case
+    return {"comps": _p_comps(R), "nspikes": R.pick(R.wpick(*sizes)), "ntraces": R.int(1, 2),
+            "smax": R.pick([1.5, 4.0, 20.0]), "pad": R.flt(0.0, 8.0), "extra": R.int(0, 1), "coff": R.flt(-1.0, 1.0),
+            "seed": R.seed(), "sign": R.pick([1.0, -1.0]), "dtype": R.pick(["f8", "f8", "f4"]),
+            "layout": R.pick(["C", "C", "F"])}
 
 
-@st.composite
-def _st_scale_corrmax(draw):
-    n = draw(_st_long_n(2 ** 20 + 5000))
-    pos = st.one_of(st.sampled_from(_seam_positions(n)), st.sampled_from(_seam_positions(n)), st.integers(0, n - 1))
-    return {"mode": "scale", "kind": "corrmax", "n": n, "comps": draw(_st_comps()), "s": draw(_st_delay()),
-            "pos": [draw(pos) for _ in range(draw(st.integers(1, 3)))], "coff": draw(st.floats(-1.0, 1.0)),
-            "seed": draw(st.integers(0, 2 ** 32 - 1)), "scale": draw(st.sampled_from([1.0, 1.0, 1e-6, 37.5, -80.0])),
-            "dtype": draw(st.sampled_from(["f8", "f8", "f4"])), "copy": draw(st.sampled_from(["fshift", "analytic"]))}
+def _p_corrmax(R, heavy):
+    n = _p_long_n(R, 2 ** 20 + 5000)
+    seams = _seam_positions(n)
+    return {"n": n, "comps": _p_comps(R), "s": _p_delay(R),
+            "pos": [R.wpick((2, lambda: R.pick(seams)), (1, lambda: R.int(0, n - 1))) for _ in range(R.int(1, 3))],
+            "coff": R.flt(-1.0, 1.0), "seed": R.seed(), "scale": R.pick([1.0, 1.0, 1e-6, 37.5, -80.0]),
+            "dtype": R.pick(["f8", "f8", "f4"]), "copy": R.pick(["fshift", "analytic"])}
 
 
-# weights of the kinds inside the scale class
-_SCALE_KINDS = [("long", 10), ("batch", 4), ("parabola", 5), ("corrmax", 2), ("cluster", 1)]
+_SCALE_PARAMS = {"long": _p_long, "batch": _p_batch, "parabola": _p_parabola, "cluster": _p_cluster,
+                 "corrmax": _p_corrmax}
+
+
+def _scale_kind(seed):
+    order = [k for k, w in _SCALE_KINDS for _ in range(w)]
+    return order[_mix(seed) % len(order)]
+
+
+def _scale_params(case):
+    """All parameters of a scale case: those spelled out in the case (a hand-written replay) win over the ones derived
+    from its seed."""
+    p = _SCALE_PARAMS[case["kind"]](_R(case["seed"]), bool(case.get("heavy", False)))
+    p.update({k: v for k, v in case.items() if k not in ("seed",)})
+    return p
 
 
 def _st_scale(tier):
-    kinds = {"long": _st_scale_long(), "batch": _st_scale_batch(), "parabola": _st_scale_parabola(),
-             "cluster": _st_scale_cluster(tier), "corrmax": _st_scale_corrmax()}
-    return _hweighted(*[(w, kinds[k]) for k, w in _SCALE_KINDS])
+    # three draws hashed into the seed: single draws repeat (0, 2^32-1 and copies of the other integers of the example
+    # made 40 % of the seeds, the same ones in every worker process)
+    def build(t):
+        u = _mix(_mix(_mix(t[0]) ^ t[1]) ^ t[2])
+        return {"mode": "scale", "kind": _scale_kind(u), "seed": u, "heavy": tier == "thorough"}
+
+    return st.tuples(*[st.integers(0, 2 ** 32 - 1)] * 3).map(build)
 
 
 _SUB = {"basis_big": _st_basis(True), "basis": _st_basis(False), "sines": _st_sines(), "corrmax": _st_corrmax(),
@@ -507,8 +567,9 @@ def _case(draw, tier):
     return draw(_SUB[draw(st.sampled_from(modes))])
 
 
-# share of the real-data-scale class (per mille of the generated cases; measured 2.5-4.2 % of the quick cases at 40): a case costs 0.2-3 s
-_SCALE_SHARE = {"quick": 30, "thorough": 20}
+# share of the real-data-scale class, per mille of the generated cases (the evidence shows 2-3 %: Hypothesis adds mutated
+# siblings of the rare examples); a case costs 0.2-3 s
+_SCALE_SHARE = {"quick": 20, "thorough": 15}
 
 
 def strategy(tier):
@@ -1273,7 +1334,7 @@ def _scale_labels(ctx, kind, size):
                     ("scale_2^21", 2 ** 21)):
         if size > b:
             ctx.label(name)  # the axis crosses a seam at b
-    if any(abs(size - b) <= 3 for b in _SEAMS + [2 ** 13, 10 ** 4, 2 ** 14, 2 ** 15, 5 * 10 ** 4, 2 * 10 ** 5]):
+    if any(abs(size - b) <= 3 for b in _SEAMS + [2 ** 12, 2 ** 13, 10 ** 4, 2 ** 14, 2 ** 15, 5 * 10 ** 4, 2 * 10 ** 5]):
         ctx.label("scale_size_next_to_block")
 
 
@@ -1326,6 +1387,7 @@ def _run_scale_long(case, ctx):
     alt = 1.0 - 2.0 * (t % 2)
     x = np.zeros((ntr, n))
     e = np.zeros((ntr, n))
+    kernels = {}
     for j, (k, f) in enumerate(kfs):
         if sig == "noise":
             x[j] = rng.uniform(-1.0, 1.0, n)
@@ -1340,7 +1402,9 @@ def _run_scale_long(case, ctx):
             if f == 0:
                 e[j] = np.roll(x[j], k)
             else:
-                e0 = od.delayed_impulse(n, k, f, nyq_free)  # one Dirichlet kernel, placed at every impulse
+                if (k, float(f)) not in kernels:  # one Dirichlet kernel per shift, placed at every impulse
+                    kernels[(k, float(f))] = od.delayed_impulse(n, k, f, nyq_free)
+                e0 = kernels[(k, float(f))]
                 for p, a_ in zip(pos, amps):
                     e[j] += a_ * np.roll(e0, p)
         else:
@@ -1675,7 +1739,7 @@ _SCALE = {"long": _run_scale_long, "batch": _run_scale_batch, "parabola": _run_s
 
 
 def _run_scale(case, ctx):
-    _SCALE[case["kind"]](case, ctx)
+    _SCALE[case["kind"]](_scale_params(case), ctx)
 
 
 _MODES = {"basis": _run_basis, "sines": _run_sines, "corrmax": _run_corrmax, "cluster": _run_cluster,
